@@ -113,7 +113,8 @@ def _child(task):
     hard = int(caps.get("task_wall_cap", 900))
     try:
         signal.signal(signal.SIGALRM, _alarm)
-        signal.alarm(hard)
+        # repeating: an exception raised inside a z3 (ctypes) callback is swallowed there, so one shot is not enough
+        signal.setitimer(signal.ITIMER_REAL, hard, 20)
     except Exception:  # noqa
         pass
     try:
@@ -122,7 +123,7 @@ def _child(task):
             core.RLIMIT = mod.RLIMIT
         mode = Mode(mode_d.get("known", ()), mode_d.get("confirm"))
         r = core.explore(_body(mod, inst["fn"], inst["params"], mode), max_paths=caps.get("max_paths", 200000),
-                         wall_cap=caps.get("wall_cap"))
+                         wall_cap=caps.get("wall_cap", max(hard - 60, 60)))  # normally explore() itself stops between two paths
     except _TaskTimeout:
         core.CTX = None
         r = dict(result="inconclusive", why="task wall-clock safety net (%d s) hit" % hard)
@@ -131,9 +132,11 @@ def _child(task):
     except BaseException as e:  # noqa
         r = dict(result="error", why="%s: %s\n%s" % (type(e).__name__, e, traceback.format_exc()[-1500:]))
     try:
-        signal.alarm(0)
+        signal.setitimer(signal.ITIMER_REAL, 0)
     except Exception:  # noqa
         pass
+    if r.get("result") == "error" and "_TaskTimeout" in str(r.get("why")):
+        r = dict(result="inconclusive", why="task wall-clock safety net (%d s) hit (inside a solver call)" % hard)
     r["key"] = inst["key"]
     r["fn"] = inst["fn"]
     r["params"] = inst["params"]
